@@ -10,9 +10,11 @@ One ndjson line per OUTERMOST entry-point call ("run") is appended to the file n
    "steps": [{"k": mkdir|open|copy|chmod|remove|rename|rmdir|spawn, "p": abs path, "q": abs path (rename target)|null, "m": int, "ex": bool,
               "om": int, "pe": bool, "tmp": bool}],
    "calls": [{"g": dsdl|support, "dry": bool, "ok": bool, "ret": [abs paths]|null, "s0": int, "s1": int}],
-   "printed": [strings]|null}
+   "printed": [strings]|null, "printed_phys": [the printed paths resolved by the OS from cwd at the end of the run]}
 
-Paths are made absolute against the cwd at the time of the step and symbolic links are resolved (`os.path.realpath`), so that "inside the output
+Every path is brought to ONE identity, that of the physical file, at record time: absolute against the cwd of the step, symbolic links of the
+directory part resolved the way the OS walks the path (`os.path.realpath` of the parent joined with the leaf name; the output directory itself
+fully resolved) BEFORE any `..` is collapsed - `lnk/../out` with `lnk -> deep/inner` is `deep/out`, not `out` - so that "inside the output
 directory" is the physical truth; the TLA+ T-layer still normalises `..` itself.  `ex`: the path existed when the step began, `om`: its permission
 bits then (0 if it did not exist), `pe`: its parent directory existed (an os.mkdir without it fails).  `tmp`: the path lies below a temporary
 file/directory announced by a `tempfile.mkstemp` / `tempfile.mkdtemp` audit event inside the same run.  An observer never changes the run:
@@ -73,13 +75,31 @@ def _emit(obj):
         S.busy = False
 
 
-def _abs(p):
+def _text(p):
     if isinstance(p, bytes):
         p = os.fsdecode(p)
     p = os.fspath(p)
     if isinstance(p, bytes):
         p = os.fsdecode(p)
-    return os.path.realpath(os.path.join(os.getcwd(), p))
+    return p
+
+
+def _abs(p):
+    """identity of the DIRECTORY a path names (output directory, temporary root): every symbolic link resolved by the OS rules, from the cwd"""
+    return os.path.realpath(os.path.join(os.getcwd(), _text(p)))
+
+
+def _phys(p):
+    """identity of the physical FILE a path names: symbolic links in the directory part are resolved as the OS does when it walks the path
+    (so a `..` after a link goes to the parent of the link's TARGET) and the leaf name is kept, which also works for a leaf that does not
+    exist yet or was just removed.  Nothing is normalised as text before the links are resolved."""
+    p = os.path.join(os.getcwd(), _text(p))
+    while len(p) > 1 and p.endswith(os.sep):
+        p = p[:-1]
+    d, b = os.path.split(p)
+    if b in ("", ".", ".."):
+        return os.path.realpath(p)
+    return os.path.join(os.path.realpath(d), b)
 
 
 def _is_tmp(ap):
@@ -91,7 +111,7 @@ def _is_tmp(ap):
 
 def _step(kind, p, m=0, q=None):
     run = S.run
-    ap = _abs(p)
+    ap = _phys(p)
     ex = os.path.lexists(ap)
     om = 0
     if ex:
@@ -99,7 +119,7 @@ def _step(kind, p, m=0, q=None):
             om = os.lstat(ap).st_mode & 0o7777
         except OSError:
             om = 0
-    run["steps"].append({"k": kind, "p": ap, "q": _abs(q) if q is not None else None, "m": int(m), "ex": bool(ex), "om": om,
+    run["steps"].append({"k": kind, "p": ap, "q": _phys(q) if q is not None else None, "m": int(m), "ex": bool(ex), "om": om,
                          "pe": os.path.isdir(os.path.dirname(ap)), "tmp": _is_tmp(ap)})
 
 
@@ -120,7 +140,7 @@ def _hook(ev, args):
             p, _mode, flags = args[0], args[1], args[2]
             if isinstance(p, int) or not isinstance(flags, int) or not (flags & _WR):
                 return
-            ap = _abs(p)
+            ap = _phys(p)
             if ap == run.get("_trace") or (ap.startswith("/dev/") and not ap.startswith("/dev/shm/")) or ap.startswith("/proc/"):
                 return
             pend = run.get("_copy")
@@ -130,7 +150,7 @@ def _hook(ev, args):
             _step("open", p, 1 if flags & os.O_TRUNC else 0)
         elif ev == "shutil.copyfile":
             _step("copy", args[1], 1)
-            run["_copy"] = _abs(args[1])
+            run["_copy"] = _phys(args[1])
         elif ev == "os.mkdir":
             if len(args) > 2 and _fd(args[2]):
                 return
@@ -162,7 +182,7 @@ def _hook(ev, args):
                 prog = a[0]
                 if isinstance(a[-1], (str, bytes, os.PathLike)):
                     tgt = a[-1]
-            run["steps"].append({"k": "spawn", "p": _abs(tgt) if tgt is not None else "/", "q": None, "m": 0, "ex": True, "om": 0, "tmp": False,
+            run["steps"].append({"k": "spawn", "p": _phys(tgt) if tgt is not None else "/", "q": None, "m": 0, "ex": True, "om": 0, "tmp": False,
                                  "prog": os.path.basename(os.fsdecode(os.fspath(prog))) if isinstance(prog, (str, bytes, os.PathLike)) else "?"})
     except Exception:  # an observer must never change the run
         pass
@@ -285,7 +305,7 @@ def _paths(ret):
         for x in ret:
             if not _pathlike(x):
                 return None
-            out.append(_abs(x))
+            out.append(_phys(x))
         return out
     except Exception:
         return None
@@ -376,6 +396,9 @@ def _wrap(fn, tag):
                     sink = run.pop("_tee", None)
                     if sink is not None:
                         run["printed"] = [x for x in "".join(sink).split(";") if x.strip()]
+                        # as the build system would use the list: each printed path resolved by the OS from the run's cwd, now, while the
+                        # directory (and any symbolic link in the spelling) still exists; never normalised as text first
+                        run["printed_phys"] = [os.path.realpath(os.path.join(run["cwd"], x.strip())) for x in run["printed"]]
                     run.pop("_trace", None)
                     run.pop("_copy", None)
                     run.pop("_fm_args", None)
